@@ -770,7 +770,7 @@ def to_query(tokens):
             value = tokens[key]
             if value and output.get(key):
                 # BOTH LEVELS HAVE ONE: THE OUTER DEFINITIONS COME FIRST
-                output[key] = listwrap(scrub(value)) + listwrap(scrub(output[key]))
+                output[key] = list(value) + list(output[key])
             elif value or key not in output:
                 output[key] = value
 
